@@ -285,7 +285,17 @@ def flatten(segs, choice=None):
             variants = [v + [s] for v in variants]
         if len(variants) > 4000:
             raise Unsupported('too many template variants')
-    return variants
+    return [merge_lits(v) for v in variants]
+
+
+def merge_lits(segs):
+    out = []
+    for s in segs:
+        if s[0] == 'lit' and out and out[-1][0] == 'lit':
+            out[-1] = ('lit', out[-1][1] + s[1])
+        else:
+            out.append(s)
+    return out
 
 
 # ------------------------------------------------------------------------- homomorphisms --------
